@@ -1218,10 +1218,12 @@ impl Channel {
                 counterparty_htlc_sigs.to_vec(),
             );
             self.enforcement_state.next_holder_commit_info = Some((info2, counterparty_signatures));
-        }
 
-        trace_enforcement_state!(self);
-        self.persist()?;
+            trace_enforcement_state!(self);
+            self.persist()?;
+        }
+        // A retry of the current commitment or a look-ahead validation changes nothing, so
+        // there is nothing to persist (and a caller that fails afterwards leaves no mutation).
 
         Ok(())
     }
@@ -2506,10 +2508,12 @@ impl Channel {
                 counterparty_htlc_sigs.to_vec(),
             );
             self.enforcement_state.next_holder_commit_info = Some((info2, counterparty_signatures));
-        }
 
-        trace_enforcement_state!(self);
-        self.persist()?;
+            trace_enforcement_state!(self);
+            self.persist()?;
+        }
+        // A retry of the current commitment or a look-ahead validation changes nothing, so
+        // there is nothing to persist (and a caller that fails afterwards leaves no mutation).
 
         Ok(())
     }
